@@ -477,5 +477,6 @@ pub fn run(tier: Tier) -> i32 {
     let pool_q = read_pool(&["x", "y", "x+y", "2*x", "z*x", "0", "1", "1-1", "3-2", "x-x", "-((1))", "-(-((1)))", "-((0))+1"], &qt, LitKind::Number);
     let m = QModel { pool: Arc::new(pool_q), table: qt, max_len: if tier.thorough() { 4 } else { 3 } };
     explore(m, &mut rep, "c10", "rationals/shortcuts");
+    crate::derived::run_derived(&mut rep, "C10", crate::derived::Focus::Apply, tier.thorough());
     rep.finish()
 }
